@@ -1,0 +1,32 @@
+//go:build verif
+// +build verif
+
+package transport
+
+import "net"
+
+// Verification hooks for the client connection lifecycle (build tag verif only). No behaviour of the
+// package changes: a read accessor and an observer that the send goroutine calls just before it writes.
+
+// VerifC11OnWrite, when set, is called by the send goroutine of a client immediately before it writes req
+// to conn. current reports whether conn is the client's current connection, closedFlag the client's closed
+// flag, both read under the connection lock at that moment. Set it before any client exists.
+var VerifC11OnWrite func(tc *TarsClient, conn net.Conn, req []byte, current bool, closedFlag bool)
+
+func verifC11OnWrite(c *connection, conn net.Conn, req []byte) {
+	f := VerifC11OnWrite
+	if f == nil {
+		return
+	}
+	c.connLock.Lock()
+	current, closed := c.conn == conn, c.isClosed
+	c.connLock.Unlock()
+	f(c.client, conn, req, current, closed)
+}
+
+// VerifC11Conn reports the client's closed flag and its current connection (nil before the first dial).
+func VerifC11Conn(tc *TarsClient) (bool, net.Conn) {
+	tc.conn.connLock.Lock()
+	defer tc.conn.connLock.Unlock()
+	return tc.conn.isClosed, tc.conn.conn
+}
